@@ -109,17 +109,8 @@ where
   }
 
   fn close_internal(&self) {
-    // Drop logic is now just the close logic.
-    // The drop impl will call this.
-    let pinned_map = self.dispatcher.subscriptions.pin();
-    for (_topic, list_arc) in pinned_map.iter() {
-      let subscribers_snapshot = list_arc.reader.enter();
-      for mailbox_weak in subscribers_snapshot.iter() {
-        if let Some(mailbox_strong) = mailbox_weak.upgrade() {
-          mailbox_strong.disconnect();
-        }
-      }
-    }
+    // Receivers are disconnected only when the last sender handle is gone (see the dispatcher).
+    self.dispatcher.sender_gone();
   }
 
   /// Converts this synchronous `TopicSender` into an `AsyncTopicSender`.
@@ -140,6 +131,7 @@ where
   T: Send + Clone + 'static,
 {
   fn clone(&self) -> Self {
+    self.dispatcher.sender_count.fetch_add(1, Ordering::Relaxed);
     Self {
       dispatcher: self.dispatcher.clone(),
       closed: AtomicBool::new(false),
@@ -365,6 +357,8 @@ where
       // Get the capacity from the existing consumer.
       let mailbox_capacity = self.consumer.capacity();
       let (p, c) = mailbox::channel(mailbox_capacity);
+      let p = Arc::new(p);
+      dispatcher.register_mailbox(&p);
 
       // Get the list of topics to subscribe to, then release the lock.
       let topics_to_subscribe: Vec<K> = self.subscriptions.lock().iter().cloned().collect();
@@ -373,7 +367,7 @@ where
       let new_receiver = Self {
         dispatcher: self.dispatcher.clone(),
         consumer: c,
-        producer_mailbox: Arc::new(p),
+        producer_mailbox: p,
         subscriptions: Arc::new(Mutex::new(HashSet::new())),
         closed: AtomicBool::new(false),
       };
